@@ -132,6 +132,11 @@ class EventMixin(object):
     """Truth test of a value: observable for opaque objects (their __bool__ runs)."""
     if isinstance(v, VRef) and v.ty.kind in ('any', 'opt', 'union'):
       st.trace.append(Event('truth', 'truth', [v.t]))
+    if isinstance(v, VBound) and not v.name.endswith('()'):
+      # an attribute of an opaque object: an unknown value, its truth test is observable
+      u = to_u(v, st)
+      st.trace.append(Event('truth', 'truth', [u]))
+      return truthy_u(u)
     return truthy(v, st)
 
 
